@@ -81,6 +81,7 @@ THash == /\ Is("Hash")
          /\ ResetOk(Ev.csrReset) /\ LearnRw(Ev.csrReset)   \* state before program 1 is independent of the caller
          /\ ProgsOk(Ev.csrProg, Ev.csrReset)
          /\ Ev.csrOut = Ev.csrBefore /\ Ev.csrAfter = Ev.csrBefore   \* caller's word restored exactly
+         /\ ("cwBefore" \in DOMAIN Ev => Ev.cwAfter = Ev.cwBefore)    \* ... and the x87 control word is as the caller left it
          /\ Hash(Ev.v, Ev.in, RcOf(Ev.csrProg[8]))
          /\ Ev.key = ExpectedKey(Ev.v) /\ Ev.hin = Ev.in
          /\ DigestOk
